@@ -340,7 +340,7 @@ impl Scenario for Sc17 {
     fn choices(&self, ctx: &Ctx17, parked: &[(usize, String)], last: Option<usize>) -> Vec<Choice> {
         // a handle may begin a transaction only when the write lock is free; when nobody can move,
         // an asynchronous rollback may still be landing: probe again for a while
-        for attempt in 0..400 {
+        for attempt in 0..12_000 {
             let free = lock_free(&ctx.dir);
             let mut v: Vec<Choice> = vec![];
             let ok = |label: &str| free || label != "storage:txn";
